@@ -318,6 +318,32 @@ func runC08(c *Ctx) {
 	if c.Thorough() {
 		n, m, nGen, rounds = 32, 4000, 400, 4
 	}
+	replaySeed := int64(0)
+	if c.Replay != "" {
+		// re-run the round recorded in a replay file: same seed, N, M and generated-source count
+		raw, err := os.ReadFile(c.Replay)
+		if err != nil && !strings.HasPrefix(c.Replay, "/") {
+			raw, err = os.ReadFile("../" + c.Replay)
+		}
+		var f struct {
+			Violation struct {
+				Input struct {
+					Replay struct {
+						Seed int64 `json:"seed"`
+						N    int   `json:"goroutines"`
+						M    int   `json:"operations_per_goroutine"`
+						Gen  int   `json:"generated_sources"`
+					} `json:"replay"`
+				} `json:"input"`
+			} `json:"violation"`
+		}
+		if err != nil || json.Unmarshal(raw, &f) != nil || f.Violation.Input.Replay.N == 0 {
+			r.Mismatch("replay", c.Replay, "a C08 replay file with seed, goroutines, operations", fmt.Sprint(err))
+			return
+		}
+		rp := f.Violation.Input.Replay
+		n, m, nGen, rounds, replaySeed = rp.N, rp.M, rp.Gen, 1, rp.Seed
+	}
 	self, err := os.Executable()
 	if err != nil {
 		r.Mismatch("c08-child", "os.Executable", err.Error(), "")
@@ -343,6 +369,9 @@ func runC08(c *Ctx) {
 	}
 	for round := 0; round < rounds; round++ {
 		seed := c.Seed + int64(round)*7919
+		if replaySeed != 0 {
+			seed = replaySeed
+		}
 		child := exec.Command(raceBin, "__c08child", fmt.Sprint(seed), fmt.Sprint(n), fmt.Sprint(m), fmt.Sprint(nGen))
 		child.Env = append(os.Environ(), "GORACE=halt_on_error=0 exitcode=66 history_size=3")
 		var so, se bytes.Buffer
